@@ -92,7 +92,7 @@ def impl_walk(spec, roots, kind="getnext", size=10, lenient=False, version="v2c"
     agent = RA.Agent(
         db=[(tuple(o), v) for o, v in spec.get("db", [])],
         table=table,
-        bulk_policy={"rows": pol.get("rows"), "cut": pol.get("cut", 0), "stop_after_eom_row": pol.get("stop", True), "deep": pol.get("deep", False)},
+        bulk_policy={"rows": pol.get("rows"), "cut": pol.get("cut", 0), "stop_after_eom_row": pol.get("stop", True), "deep": pol.get("deep", False), "starve": pol.get("starve")},
         budget=budget,
         hook=hook,
     )
